@@ -1374,6 +1374,24 @@ _old_native_attr = native_attr
 def native_attr(engine, run, obj, attr):   # noqa: F811
     if isinstance(obj, SCell) and attr == "sum":
         return SNative(lambda run, a, k: _reduce(run, "sum", obj.v, obj.space), "ndarray.sum")
+    if isinstance(obj, SCell) and attr in ("min", "max", "mean"):
+        def red(run, a, k, attr=attr):
+            cache = run.ghost.setdefault("cell_reductions", {})
+            key = (id(obj), attr)
+            if key not in cache:
+                r = run.fresh_real(f"data_{attr}")
+                v = to_real(obj.v)
+                if attr == "min":
+                    run.define(r <= v, "min of an array is <= every entry")
+                elif attr == "max":
+                    run.define(r >= v, "max of an array is >= every entry")
+                cache[key] = r
+                run.ghost.setdefault("cell_reduction_list", []).append((obj, attr, r))
+                run.trust(f"numpy: ndarray.{attr}() (non-empty array)")
+            return cache[key]
+        return SNative(red, "ndarray." + attr)
+    if isinstance(obj, SCell) and attr == "flat":
+        return obj
     if isinstance(obj, SCell) and attr == "ndim":
         n = z3.Int(f"ndim_{obj.space}")
         run.define(n >= 1, "cell-wise arrays have ndim >= 1")
